@@ -7,7 +7,7 @@ RULE = ("exhaustive: header 0..3 x limit in {none, 0..rows+1} x tables of 0..5 r
         "position (including inside the header) or none x {rows() with on_error yield, validate()}; one Choice field, "
         "optionally an IsUnique check with the bad row being a duplicate instead; plus random CIDs/tables with random "
         "header and limit. For validate() cases the command line is run with --until N on the same files and must "
-        "agree with the API. Non-trivial: the table has a bad row. Distinct = distinct (CID, table, limit, api).")
+        "agree with the API; clean tables also with a container fault (unterminated quote) behind the last row. Non-trivial: the table has a bad row. Distinct = distinct (CID, table, limit, api).")
 EXHAUSTIVE = {"quick": True, "thorough": True}
 
 
@@ -34,6 +34,10 @@ def gen_inputs(tier, rnd):
                                 table[bad] = ["zz"]
                         for api in ("rows", "validate"):
                             yield {"spec": base_spec(header, unique), "table": table, "mode": "yield", "limit": limit, "api": api}
+                            if bad is None and not unique:
+                                # the container breaks behind the last row (unterminated quote): the validate-only API must
+                                # not even notice when it stops before, the row API always does
+                                yield {"spec": base_spec(header, unique), "table": table, "mode": "yield", "limit": limit, "api": api, "fault": True}
     for _ in range(100 if tier == "quick" else 3000):
         spec = V.gen_spec(rnd, header=rnd.randint(0, 3))
         table = V.gen_table(rnd, spec)
@@ -54,7 +58,10 @@ def direct_oracle(inp, obs):
                 return "rejection reported for row %d beyond the validation limit %d" % (o["err"]["line"] + 1, limit)
             if "err" in o and o["err"]["line"] + 1 <= header:
                 return "rejection reported for header row %d" % (o["err"]["line"] + 1)
-    if inp.get("api") == "validate" and spec["format"] == "delimited":
+    if inp.get("api") == "validate" and inp.get("fault") and limit is not None and len(table) >= header + limit and obs["raised"] is not None:
+        if not spec["checks"]:
+            return "validate() with limit %d raised %s although the container is broken only behind data row %d" % (limit, obs["raised"]["family"], len(table) - header)
+    if inp.get("api") == "validate" and spec["format"] == "delimited" and not inp.get("fault"):
         # command line --until N must have the same effect as the API's limit
         with CLI.Workdir() as w:
             cid_path = w.write_cid(spec)
